@@ -101,7 +101,7 @@ def main(prop, tier):
     for cfg in M:
         if cfg == "MC_Tree_struct9S.cfg":
             # 12 single-layer keys at fan-out 3 (interior splits, new interior root, collapse): too many orders to enumerate, random walks instead
-            seqtrace.model_check(chk, "MC_Tree_sim12.cfg", "random walks of the sequential model, 12 single-layer keys (interior split / collapse)", workers=8, simulate=1500 if tier == "quick" else 12000, depth=45, timeout=1500)
+            seqtrace.model_check(chk, "MC_Tree_sim12.cfg", "random walks of the sequential model, 12 single-layer keys (interior split / collapse)", workers=4, simulate=250 if tier == "quick" else 3000, depth=45, timeout=1500)
             continue
         seqtrace.model_check(chk, cfg, "exhaustive sequential model " + cfg, timeout=1500)
     # second seed set in thorough tier: same profiles, later seeds
